@@ -27,6 +27,8 @@ def gen_schedule(rng, system, T0, allow_noniso=True, duration=1e4):
         hrs_tot = duration / 3600.0
         nseg = int(rng.integers(1, 4))
         hours = [0.0] + sorted(float(h) for h in rng.uniform(0.05, 1.0, nseg) * hrs_tot)
+        if nseg == 3:
+            hours[0] = 0.5 * hours[1]      # first break point later than the start of the run: the first temperature is held before it
         temps = [float(T0)]
         for i in range(nseg):
             temps.append(float(T0 + span * rng.uniform(0.2, 1.0) * (1 if rng.random() < 0.7 else 0)))
